@@ -65,9 +65,12 @@ def r2_linkage(run, F):
     d = F.body("alpha::generator::declare")
     found = {}
     for n in walk(d["hir"]):
-        if n.get("k") == "Let" and n["pat"].get("name") in ("linkage", "callconv") and n.get("init", {}).get("k") == "If":
+        if n.get("k") == "Let" and isinstance(n.get("init"), dict) and n["init"].get("k") == "If" and n["pat"].get("k") == "Bind":
             e = n["init"]
-            if "LLVMLinkage" not in " ".join(hirq.short(p) for p, _ in hirq.constructs(e)) and n["pat"]["name"] == "linkage":
+            # by role: the local selected between LLVMLinkage values / between LLVMCallConv values (its name is free)
+            built = " ".join(hirq.short(p) for p, _ in hirq.constructs(e))
+            role = "linkage" if "LLVMLinkage::" in built else "callconv" if "LLVMCallConv::" in built else None
+            if role is None:
                 continue
             cond = flags_in(e["cond"])
             contains = [c for c in hirq.calls(e["cond"]) if (hirq.callee(c) or "").endswith("EnumSet::contains")]
@@ -75,7 +78,7 @@ def r2_linkage(run, F):
             all_or = all(x.get("op") == "Or" for x in ors)
             then = [hirq.short(p).split("::")[-1] for p, _ in hirq.constructs(e["then"])]
             els = [hirq.short(p).split("::")[-1] for p, _ in hirq.constructs(e["else"])] if "else" in e else []
-            found[n["pat"]["name"]] = (cond, len(contains), all_or, then, els, n)
+            found[role] = (cond, len(contains), all_or, then, els, n)
     run.require("linkage" in found and "callconv" in found, "linkage/callconv selection not found in generator::declare")
     cond, k, all_or, then, els, n = found["linkage"]
     ok = cond == ["Forward", "Main", "Public"] and k == 3 and all_or and then == ["LLVMExternalLinkage"] and els == ["LLVMPrivateLinkage"]
